@@ -9,7 +9,7 @@ pub fn contracts() -> Vec<Contract> {
         Contract { name: "c04_impl_header_bounds", function: "analyze_generics.rs::{analyze_fn_deps, find_deps_generic_bounds}, fn_delegation_codegen.rs::gen_impl_block", props: &["C04", "C19", "C01", "C03"], run: c04_header },
         Contract { name: "c05_concrete_dependency", function: "analyze_generics.rs::{extract_deps_from_type, detect_trait_dependency_mode}, trait_codegen.rs::gen_trait_def", props: &["C05", "C15"], run: c05_concrete },
         Contract { name: "c13_trait_visibility", function: "entrait_fn/input_attr.rs::EntraitFnAttr::parse, trait_codegen.rs::TraitVisibility, entrait_fn/mod.rs::entrait_for_mod, entrait_trait/mod.rs::gen_impl_delegation_trait_defs", props: &["C13", "C08"], run: c13_visibility },
-        Contract { name: "c18_attribute_placement", function: "entrait_fn/mod.rs, signature/converter.rs::convert_fn_to_trait_fn, sub_attributes.rs::analyze_sub_attributes, trait_codegen.rs::gen_trait_def, fn_delegation_codegen.rs::gen_impl_block", props: &["C18", "C12"], run: c18_attrs },
+        Contract { name: "c18_attribute_placement", function: "entrait_fn/mod.rs, signature/converter.rs::convert_fn_to_trait_fn, sub_attributes.rs::analyze_sub_attributes, trait_codegen.rs::gen_trait_def, fn_delegation_codegen.rs::gen_impl_block", props: &["C18"], run: c18_attrs },
     ]
 }
 
